@@ -119,6 +119,11 @@ def _builtins(eng):
             return Opaque("symset", methods={"len": lambda e_, items=items: SV(_distinct_count(items), "int")})
         return set(items)
     eng.extra_globals["set"] = Builtin("set", set_)
+    def warn_(e, *a, **k):
+        # warnings.warn returns, or raises the warning when the user's filter turns warnings into errors (python -W error)
+        if e.choose(2) == 1: raise PyRaise("UserWarning", "warnings filter 'error'")
+        return None
+    eng.extra_globals["warn"] = Builtin("warn", warn_)
 
 
 def _explore(run, src, method, build_args, label, extra_overrides=None, abstract=("_chk_name", "_chk_parent", "_chk_comp", "_get_index"), loop_invs=None):
@@ -180,7 +185,7 @@ def _explore(run, src, method, build_args, label, extra_overrides=None, abstract
     return paths, eng
 
 
-def _frame_obls(paths, qual, label, tags=("C15",)):
+def _frame_obls(paths, qual, label, tags=("C15",), exc_type_clause=True):
     obls = []
     # loops whose arbitrary iteration writes: after such a loop the write log is unknown-but-possibly-non-empty
     writing_loops = {p.extra.get("iterating") for p in paths if p.kind in ("end", "raise", "return") and p.extra.get("iterating") and len(p.extra["W"].writes) > 0}
@@ -192,7 +197,8 @@ def _frame_obls(paths, qual, label, tags=("C15",)):
             after = [l for l in p.extra.get("loop_exit_k", {}) if l in writing_loops]
             clean = len(W.writes) == 0 and not after
             obls.append({"id": "%s%s/frame:nothing written before the exception [%s]@p%d" % (qual, label, how, pi), "hyps": p.pc, "goal": z3.BoolVal(clean), "kind": "post", "tags": list(tags), "meta": {"detail": str([(w[0], w[1]) for w in W.writes][:6] + ["after writing loop %s" % l for l in after])}})
-            obls.append({"id": "%s%s/rejections are ValueError@p%d" % (qual, label, pi), "hyps": p.pc, "goal": z3.BoolVal(e.etype == "ValueError" and not e.implicit), "kind": "post", "tags": list(tags), "meta": {}})
+            if e.etype != "UserWarning" and exc_type_clause:      # a warning raised through the user's filter is not a rejection of the call, but the frame clause above still binds
+                obls.append({"id": "%s%s/rejections are ValueError@p%d" % (qual, label, pi), "hyps": p.pc, "goal": z3.BoolVal(e.etype == "ValueError" and not e.implicit), "kind": "post", "tags": list(tags), "meta": {}})
     return obls
 
 
@@ -215,8 +221,8 @@ def obligations(run, src):
             obls.append(_ob(qual + "/post:accepted => one new root registered under its own name in every registry@p%d" % pi, p, z3.And(z3.BoolVal(bool(ok)), keys_ok, c.t == name_const("SOURCE")), ["C15", "C14"]))
             obls.append(_ob(qual + "/canary@p%d" % pi, p, c.t != name_const("SOURCE"), ["C15"], kind="canary"))
     # ------------------------------------------------------------------ add_comp(parent, comp, group, rail): single parent and 2-/3-input lists
-    for npar in (0, 2, 3):
-        lab = "[single parent]" if npar == 0 else "[%d-input list]" % npar
+    for npar in (0, 2, 3, -1):
+        lab = "[single parent]" if npar == 0 else "[%d-input list]" % npar if npar > 0 else "[empty list]"
         def args_add_comp(W, e, npar=npar):
             c = W.new_comp("new"); W.newc = c
             par = SV(z3.Const("parent_arg", NAME), "name") if npar == 0 else [SV(z3.Const("parent_arg%d" % j, NAME), "name") for j in range(npar)]
@@ -227,7 +233,8 @@ def obligations(run, src):
         paths, eng = _explore(run, src, "add_comp", args_add_comp, lab, loop_invs={"attrs['nodes']": inv_nodes})
         if not paths: continue
         qual = "system.System.add_comp"
-        obls += _frame_obls(paths, qual, lab)
+        # (an empty parent list ends in an IndexError on the unchanged tree: the property fixes what a raising call leaves behind, not its type)
+        obls += _frame_obls(paths, qual, lab, exc_type_clause=(npar != -1))
         obls += [dict(o, id=o["id"] + lab, tags=["C14"]) for o in eng.obligations]
         for pi, p in enumerate(paths):
             if p.kind == "return":
@@ -237,12 +244,12 @@ def obligations(run, src):
             if p.kind != "return": continue
             W = p.extra["W"]; c = W.newc
             kinds = [(w[0], w[1]) for w in W.writes]
-            ok = kinds.count(("graph", "add_child")) == 1 and kinds.count(("graph", "add_edge")) == max(0, npar - 1) and all(k in kinds for k in (("nodes", "store"), ("phase_conf", "store"), ("groups", "store"), ("rails", "store"), ("pnames", "store")))
+            ok = npar != -1 and kinds.count(("graph", "add_child")) == 1 and kinds.count(("graph", "add_edge")) == max(0, npar - 1) and all(k in kinds for k in (("nodes", "store"), ("phase_conf", "store"), ("groups", "store"), ("rails", "store"), ("pnames", "store")))
             keys_ok = z3.And(*[w[2] == c.nm for w in W.writes if w[0] in ("nodes", "phase_conf", "groups", "rails")])
             rail_w = [w for w in W.writes if w[0] == "rails"]
             rail_ok = z3.Implies(c.t == name_const("LOAD"), to_z(rail_w[-1][3]) == EMPTY) if rail_w and (is_sym(rail_w[-1][3]) or isinstance(rail_w[-1][3], str)) else z3.BoolVal(False)
             obls.append(_ob("%s%s/post:accepted => one new node registered under its own name; a load gets no rail@p%d" % (qual, lab, pi), p, z3.And(z3.BoolVal(bool(ok)), keys_ok, rail_ok), ["C15", "C14"]))
-            if npar:
+            if npar > 0:
                 obls.append(_ob("%s%s/post:a parent list is accepted only for a PMux@p%d" % (qual, lab, pi), p, c.t == name_const("PMUX"), ["C14", "C15"]))
             obls.append(_ob("%s%s/canary@p%d" % (qual, lab, pi), p, z3.BoolVal(False), ["C15"], kind="canary"))
     # ------------------------------------------------------------------ change_comp(name, comp, group, rail)
@@ -318,23 +325,7 @@ def obligations(run, src):
         j = z3.Int("dj"); nm = z3.Const("name_arg", NAME)
         regs = (W.nodes, W.pconf, W.groups, W.rails)
         return z3.And(*[z3.And(z3.Select(r.dom, nm), z3.ForAll([j], z3.Implies(z3.And(j >= k, j < NDESC), z3.Select(r.dom, W.CNAME(DESC(j)))))) for r in regs])
-    def heap_havoc_for(W_holder):
-        def hh(e):
-            W = e.path_extra["W"]
-            for r in (W.nodes, W.pconf, W.groups, W.rails):
-                e.fresh_n += 1
-                r.dom = z3.Array("%s.dom!%d" % (r.label, e.fresh_n), NAME, Bo)
-        return hh
     paths, eng = _explore(run, src, "del_comp", args_del_t, "[del_childs=True]", ov_del_t, loop_invs={"descendants": inv_desc})
-    # the registries are heap objects: the loop rule must havoc them at the loop head
-    if paths is not None:
-        eng2 = None
-    import ast as _ast
-    def explore_del_true():
-        eng = Engine(src)
-        holder = {}
-        from .system_edit2 import World as _W
-        return None
     if paths:
         qual = "system.System.del_comp"
         lab = "[del_childs=True]"
